@@ -37,6 +37,7 @@ type c15case struct {
 	Fails   []int  `json:"fails,omitempty"`   // byte positions at which the stream breaks (each once)
 	Chunk   int    `json:"chunk,omitempty"`   // the underlying reader delivers at most this many bytes per Read
 	Forever bool   `json:"forever,omitempty"` // the stream breaks at position Fails[0] on every attempt
+	Partial bool   `json:"partial,omitempty"` // the failing Read returns the bytes before the break together with the error
 	Seed    uint64 `json:"seed"`
 }
 
@@ -242,6 +243,7 @@ type c15stream struct {
 	chunk   int
 	hit     *int
 	forever int
+	partial bool
 }
 
 var errC15 = errors.New("verif: injected transient stream failure")
@@ -268,6 +270,16 @@ func (s *c15stream) Read(p []byte) (int, error) {
 				return 0, errC15
 			}
 			n = f - s.off
+			if s.partial {
+				// io.Reader allows data together with an error (e.g. a connection reset mid-body):
+				// these bytes were not delivered by the failing call's consumer and must be re-read
+				copy(p, s.data[s.off:s.off+n])
+				if s.forever < 0 {
+					delete(s.fails, f)
+				}
+				*s.hit++
+				return n, errC15
+			}
 		}
 	}
 	copy(p, s.data[s.off:s.off+n])
@@ -300,7 +312,7 @@ func runC15retry(t *vf.T, c c15case) {
 		if off < 0 || int(off) > len(data) {
 			return nil, fmt.Errorf("bad offset %d", off)
 		}
-		return &c15stream{data: data, off: int(off), fails: fails, chunk: c.Chunk, hit: &hits, forever: forever}, nil
+		return &c15stream{data: data, off: int(off), fails: fails, chunk: c.Chunk, hit: &hits, forever: forever, partial: c.Partial}, nil
 	})
 	_ = openFails
 	var got []byte
@@ -541,6 +553,9 @@ func runC15(r *vf.Runner) {
 			for _, chunk := range []int{0, 1, 3} {
 				c := c15case{Kind: "retry", Len: l, Fails: []int{pos}, Chunk: chunk, Seed: uint64(l*100 + pos)}
 				r.Case(c, func(t *vf.T) { runC15retry(t, c) })
+				cp := c
+				cp.Partial = true
+				r.Case(cp, func(t *vf.T) { runC15retry(t, cp) })
 				if pos < l {
 					cf := c
 					cf.Forever = true
@@ -554,7 +569,7 @@ func runC15(r *vf.Runner) {
 		n = 20000
 	}
 	for i := 0; i < n; i++ {
-		c := c15case{Kind: "retry", Len: rnd.Pick(5, 64, 1000, 65536), Chunk: rnd.Pick(0, 1, 7, 4096), Seed: rnd.Uint64()}
+		c := c15case{Kind: "retry", Len: rnd.Pick(5, 64, 1000, 65536), Chunk: rnd.Pick(0, 1, 7, 4096), Seed: rnd.Uint64(), Partial: rnd.Bool()}
 		for j, k := 0, rnd.Intn(5); j < k; j++ {
 			c.Fails = append(c.Fails, rnd.Intn(c.Len+1))
 		}
